@@ -76,7 +76,21 @@ impl<'a, P: ?Sized + PathImpl> PathMutImpl<'a, P> {
 		}
 	}
 
+	/// Checks if this path is embedded in a URI/IRI reference, right after an
+	/// authority part, in which case it is either empty or absolute.
+	fn is_after_authority(&self) -> bool {
+		self.follows_authority && self.start > 0
+	}
+
 	pub fn push(&mut self, segment: &P::Segment) {
+		if self.is_after_authority() && self.start == self.end {
+			// VALIDITY: When an authority is present, the path must be
+			//           absolute.
+			allocate_range(self.buffer, self.start..self.start, 1);
+			self.buffer[self.start] = b'/';
+			self.end += 1;
+		}
+
 		// Disambiguate if the path is empty and one of the following is true:
 		// - `segment` looks like a scheme and path is a the start.
 		// - `segment` is empty, path is absolute and following an authority.
@@ -124,7 +138,7 @@ impl<'a, P: ?Sized + PathImpl> PathMutImpl<'a, P> {
 	pub fn pop(&mut self) -> bool {
 		let is_empty = self.is_empty();
 
-		if (is_empty && self.is_relative())
+		if (is_empty && self.is_relative() && !self.is_after_authority())
 			|| self.last().map(SegmentImpl::as_bytes) == Some(PARENT_SEGMENT)
 		{
 			self.push(verif_static!(
